@@ -140,6 +140,17 @@ Definition payload_of (cs : list chunk) (i : N) : list N :=
 (* concatenation of the payloads in id order *)
 Definition concat_by_id (cs : list chunk) : list N := flat_map (payload_of cs) (nseq (length cs)).
 
+(* the single faults, as predicates on the set *)
+Definition F_board (cs : list chunk) : Prop := exists c c', In c cs /\ In c' cs /\ c_dev c <> c_dev c'.
+Definition F_chip (cs : list chunk) : Prop := exists c c', In c cs /\ In c' cs /\ c_chan c <> c_chan c'.
+Definition F_missing (cs : list chunk) : Prop := exists i, i < lenN cs /\ ~ In i (map c_id cs).
+Definition F_dup (cs : list chunk) : Prop := ~ NoDup (map c_id cs).
+Definition F_eom_absent (cs : list chunk) : Prop := exists c, In c cs /\ c_id c = lenN cs - 1 /\ c_eom c = false.
+Definition F_eom_early (cs : list chunk) : Prop := exists c, In c cs /\ c_id c <> lenN cs - 1 /\ c_eom c = true.
+Definition F_size (cs : list chunk) : Prop :=
+  exists c c0, In c cs /\ In c0 cs /\ c_id c0 = 0 /\ c_id c < lenN cs - 1 /\ lenN (c_payload c) <> lenN (c_payload c0).
+
+
 (* ---------- the sender side: a payload cut into pieces, numbered, end-of-message on the last ---------- *)
 Definition mk_chunk (dev chan : N) (pseq cseq : N -> N) (i flags : N) (p : list N) : chunk :=
   {| c_dev := dev; c_pseq := pseq i; c_cseq := cseq i; c_chan := chan; c_flags := flags; c_id := i; c_payload := p |}.
